@@ -418,6 +418,35 @@ pub fn gen_import(i: u64) -> Option<String> {
     tree::parse_ok(&out).map(|_| out)
 }
 
+/// C19 only: parenthesised multi-line imports whose items are grouped by blank lines (and hand-indented oddly).
+pub fn gen_import_blank(i: u64) -> Option<String> {
+    let mut r = Rng::new(i ^ 0x4942_4c4b);
+    let n = 2 + r.below(6);
+    let mut names: Vec<&str> = NAMES.to_vec();
+    r.shuffle(&mut names);
+    let mut body = String::from("(\n");
+    for k in 0..n {
+        let base = names[k % names.len()];
+        let item = match r.below(5) {
+            0 => format!("{} as {}", base, names[(k + 5) % names.len()]),
+            1 => format!("{}.{}", base, names[(k + 3) % names.len()]),
+            _ => base.to_string(),
+        };
+        body.push_str(["  ", "", "      ", "\t"][r.below(4)]);
+        body.push_str(&item);
+        body.push(',');
+        body.push_str(["\n", "\n\n", "\n\n\n", " ", "\n  \n"][r.below(5)]);
+    }
+    body.push(')');
+    let stmt = format!("import {}: {}", r.pick(&MODS), body);
+    let out = match r.below(4) {
+        0 => format!("#{{\n  {}\n}}", stmt),
+        1 => format!("text\n#{}\nmore", stmt),
+        _ => format!("#{}", stmt),
+    };
+    tree::parse_ok(&out).map(|_| out)
+}
+
 // ------------------------------------------------------------------------------------------------
 // tables
 
@@ -489,7 +518,38 @@ pub fn gen_table(i: u64) -> Option<String> {
 pub const NEST_FAMILIES: usize = 26;
 
 /// Wrap `inner` with wrapper `w`. Code-level wrappers take/return a code expression.
+/// Families 0..NEST_FAMILIES take part in the mixed nestings of G-NEST; NEST_FAMILIES..NEST_FAMILIES_ALL are pure ladders only
+/// (C18, C05): calls nested through their trailing content blocks, spreads, statements, left-nested operands, …
+pub const NEST_FAMILIES_ALL: usize = 44;
+
 pub fn wrap(w: usize, inner: &str) -> String {
+    if w >= NEST_FAMILIES && w < NEST_FAMILIES_ALL {
+        // after `#`, a call needs no parentheses: `#f[#f[#x]]`
+        let is_call = inner.starts_with(|c: char| c.is_ascii_lowercase())
+            && (inner.ends_with(']') || inner.ends_with(')'))
+            && !["not ", "context ", "while ", "if ", "for "].iter().any(|k| inner.starts_with(k));
+        let h = if is_call { inner.to_string() } else { paren_if_needed(inner) };
+        return match w {
+            26 => format!("f[#{}]", h),
+            27 => format!("f(a)[#{}]", h),
+            28 => format!("f[a][#{}]", h),
+            29 => format!("g.h(1)[#{}]", h),
+            30 => format!("f(1, k: 2)[#{}][b]", h),
+            31 => format!("table(columns: 1, [#{}])", h),
+            32 => format!("(..{},)", h),
+            33 => format!("f(..{})", h),
+            34 => format!("{{ let y = {}; y }}", inner),
+            35 => format!("while c {{ {} }}", inner),
+            36 => format!("context {}", h),
+            37 => format!("not {}", h),
+            38 => format!("{} + 1", h),
+            39 => format!("{}.f", h),
+            40 => format!("{}(1)", h),
+            41 => format!("f({})[x]", inner),
+            42 => format!("(a, {}) => 1", if inner.chars().all(|c| c.is_alphanumeric()) { inner.to_string() } else { format!("b: {}", inner) }),
+            _ => format!("[#set text(red)[#{}]]", h),
+        };
+    }
     match w % NEST_FAMILIES {
         0 => format!("f({})", inner),
         1 => format!("f(a: {})", inner),
